@@ -43,7 +43,7 @@ class FakeChannel:
     """One websocket of an engine as the dispatcher sees it: `other.get_engine_id_async()` answers with the engine's id,
     `close()` closes it. Every connection is its own object with its own id."""
 
-    def __init__(self, eid, n=0):
+    def __init__(self, eid, n=0, id_latency=0.001):
         self.id = f"chan-{n}-{eid}"
         self.engine_id = eid
         self.closed = False
@@ -54,7 +54,7 @@ class FakeChannel:
         class _Other:
             async def get_engine_id_async(self):
                 from fastapi_websocket_rpc.schemas import RpcResponse
-                await asyncio.sleep(0.001)
+                await asyncio.sleep(id_latency)
                 return RpcResponse(result=ch.engine_id, result_type="str", call_id="c")
         self.other = _Other()
 
@@ -217,6 +217,8 @@ class SimA(Simulator):
             # a web push subscriber exists and the push service answers slowly: whatever awaits the notification is
             # suspended while the engine is already back
             cfg["push_latency"] = rng.choice([0.02, 0.12, 0.3, 2.0])
+        if faults and rng.random() < 0.25:
+            cfg["id_rpc_latency"] = rng.choice([0.12, 0.4, 1.0])
         return {"cfg": cfg, "ops": ops}
 
     def _gen_errorlog(self, rng: random.Random, tier: str) -> dict:
@@ -502,19 +504,32 @@ class SimA(Simulator):
                 # the dispatcher's real connect path: on_client_connect -> delayed task -> id lookup over rpc -> accept, or
                 # close the socket of a second engine with a connected id; the endpoint reports every closed socket
                 w.n_channels += 1
-                ch = FakeChannel(eid(e), w.n_channels)
-                await w.dispatcher.on_client_connect(ch)
-                for _ in range(200):
-                    if not w.dispatcher._on_client_connect_tasks:
-                        break
-                    await asyncio.sleep(0.005)
-                if ch.closed:
-                    res.probe("websocket_rejected")
-                    await closed(ch, step)
+                lat = cfg.get("id_rpc_latency", 0.001)
+                ch = FakeChannel(eid(e), w.n_channels, lat)
+                disp = w.dispatcher
+                await disp.on_client_connect(ch)
+
+                async def finish(ch=ch, e=e, disp=disp, step=step):
+                    for _ in range(2000):
+                        if not disp._on_client_connect_tasks:
+                            break
+                        await asyncio.sleep(0.005)
+                    if disp is not w.dispatcher:
+                        return                      # the aggregator restarted meanwhile: the socket is gone with it
+                    if ch.closed:
+                        res.probe("websocket_rejected")
+                        await closed(ch, step)
+                    else:
+                        ch.accepted = True
+                        w.live_channels[e] = ch
+                        w.engine_method_version.setdefault(eid(e), 0)
+                if lat <= 0.01:
+                    await finish()
                 else:
-                    ch.accepted = True
-                    w.live_channels[e] = ch
-                    w.engine_method_version.setdefault(eid(e), 0)
+                    # the id lookup over the new websocket is slow: the engine's first messages (it posts as soon as its
+                    # socket is open) are handled before the dispatcher has finished its connect handling
+                    res.fault("slow_engine_id_round_trip")
+                    bg.append(asyncio.ensure_future(finish()))
             elif k == "disconnect":
                 e = op[1]
                 ch = w.live_channels.pop(e, None)
